@@ -173,11 +173,46 @@ func c05Recover(w *World, r *Report) {
 			}
 			continue
 		}
-		mc, ok := d.Call.Value.(*ssa.MakeClosure)
-		if !ok {
+		// the deferred function: a function literal (the named result is captured) or a function or
+		// method that is handed the address of the named result
+		isResCell := func(v ssa.Value) bool {
+			al, ok := v.(*ssa.Alloc)
+			return ok && (strings.HasPrefix(al.Comment, "res") || f.Signature.Results().Len() == 1 && al.Comment == f.Signature.Results().At(0).Name())
+		}
+		var h *ssa.Function
+		isResAddr := func(addr ssa.Value) bool { return false }
+		if mc, ok := d.Call.Value.(*ssa.MakeClosure); ok {
+			h = mc.Fn.(*ssa.Function)
+			isResAddr = func(addr ssa.Value) bool {
+				fv, ok := addr.(*ssa.FreeVar)
+				if !ok {
+					return false
+				}
+				for i, x := range h.FreeVars {
+					if x == fv && isResCell(mc.Bindings[i]) {
+						return true
+					}
+				}
+				return false
+			}
+		} else if sc := d.Call.StaticCallee(); sc != nil && sc.Blocks != nil {
+			h = sc
+			isResAddr = func(addr ssa.Value) bool {
+				prm, ok := addr.(*ssa.Parameter)
+				if !ok {
+					return false
+				}
+				for i, q := range h.Params {
+					if q == prm && i < len(d.Call.Args) && isResCell(d.Call.Args[i]) {
+						return true
+					}
+				}
+				return false
+			}
+		}
+		if h == nil {
 			continue
 		}
-		h := mc.Fn.(*ssa.Function)
 		var rec *ssa.Call
 		for _, b := range h.Blocks {
 			for _, in2 := range b.Instrs {
@@ -210,15 +245,9 @@ func c05Recover(w *World, r *Report) {
 				if fa, ok := st.Addr.(*ssa.FieldAddr); ok && isFieldAddrOf(fa, runErr) {
 					okErr = msg
 				}
-				if fv, ok := st.Addr.(*ssa.FreeVar); ok {
-					// the named result of Run, captured by reference
-					for i, x := range h.FreeVars {
-						if x == fv {
-							if al, ok := mc.Bindings[i].(*ssa.Alloc); ok && strings.HasPrefix(al.Comment, "res") || ok && f.Signature.Results().Len() == 1 && al.Comment == f.Signature.Results().At(0).Name() {
-								okRes = msg
-							}
-						}
-					}
+				if isResAddr(st.Addr) {
+					// the named result of Run, captured by reference or handed over by address
+					okRes = msg
 				}
 			}
 		}
